@@ -52,6 +52,19 @@ def workdir(name, clean=True):
 # build
 # ---------------------------------------------------------------------------
 
+def cargo(cmd, cwd, env=None, timeout=3600):
+    """cargo with nothing on stdin; its `rustc -` probe has been seen to read foreign text on a loaded
+    machine ("failed to run `rustc` to learn about target-specific information"): retried, that failure
+    says nothing about the code"""
+    for attempt in range(4):
+        p = subprocess.run(cmd, cwd=cwd, env=env, stdin=subprocess.DEVNULL, stdout=subprocess.PIPE,
+                           stderr=subprocess.STDOUT, text=True, timeout=timeout)
+        if p.returncode == 0 or "failed to run `rustc` to learn" not in p.stdout:
+            return p
+        time.sleep(5 + 10 * attempt)
+    return p
+
+
 def build():
     """(Re)build the harness and the hooks-on CLI from /repo's working tree."""
     t0 = time.time()
@@ -66,8 +79,7 @@ def build():
     os.makedirs(TARGET, exist_ok=True)
     with open(os.path.join(TARGET, ".verif-build.lock"), "w") as lk:
         fcntl.flock(lk, fcntl.LOCK_EX)
-        p = subprocess.run(["cargo", "build", "--offline", "-q"], cwd=HARNESS, env=env,
-                           stdout=subprocess.PIPE, stderr=subprocess.STDOUT, text=True)
+        p = cargo(["cargo", "build", "--offline", "-q"], cwd=HARNESS, env=env)
     if p.returncode != 0:
         errs = [l for l in p.stdout.splitlines() if l.startswith("error")]
         log(p.stdout[-6000:])
